@@ -572,22 +572,22 @@ fn random_case(rng: &mut Rng, len: usize, sh: &mut Shard) {
         } else if r < 30 {
             let n = 1 + rng.below(4);
             let pos = if wild && rng.chance(1, 4) { any(rng) }
-                      else if last >= first && rng.chance(1, 3) { first + rng.below(last - first + 1) }
+                      else if last >= first && rng.chance(1, 3) { first.saturating_add(rng.below((last - first).saturating_add(1))) }
                       else { last.wrapping_add(1) };
             let t0 = if pos > 0 { d.s.term(pos - 1).unwrap_or(lterm) } else { 1 };
             let broken = wild && rng.chance(1, 5);
-            Op::Append(rand_ents(rng, pos, n, t0.max(hs.term.min(t0 + 1)), broken))
+            Op::Append(rand_ents(rng, pos, n, t0.max(hs.term.min(t0.saturating_add(1))), broken))
         } else if r < 40 {
-            let i = if wild && rng.chance(1, 3) { any(rng) } else if hs.commit >= first && rng.chance(3, 4) { first + rng.below(hs.commit - first + 1) } else { rng.below(first + 1) };
+            let i = if wild && rng.chance(1, 3) { any(rng) } else if hs.commit >= first && rng.chance(3, 4) { first.saturating_add(rng.below((hs.commit - first).saturating_add(1))) } else { rng.below(first.saturating_add(1)) };
             Op::Compact(i)
         } else if r < 48 {
             let i = if wild || rng.chance(1, 3) { any(rng) } else { last.saturating_add(rng.below(4)) };
             Op::ApplySnap(i, lterm + rng.below(2), rand_cs(rng))
         } else if r < 58 {
-            let i = if wild && rng.chance(1, 3) { any(rng) } else if last >= first { first + rng.below(last - first + 1) } else { any(rng) };
+            let i = if wild && rng.chance(1, 3) { any(rng) } else if last >= first { first.saturating_add(rng.below((last - first).saturating_add(1))) } else { any(rng) };
             if last < first && !(wild && rng.chance(1, 10)) {
                 // nothing to commit to: append instead
-                { let n = 1 + rng.below(3); Op::Append(rand_ents(rng, last + 1, n, lterm, false)) }
+                { let n = 1 + rng.below(3); Op::Append(rand_ents(rng, last.wrapping_add(1), n, lterm, false)) }
             } else if rng.chance(1, 5) { Op::CommitToConf(i, if rng.chance(1, 2) { Some(rand_cs(rng)) } else { None }) } else { Op::CommitTo(i) }
         } else if r < 61 { Op::SetHs(lterm + rng.below(2), rng.below(4), if wild { any(rng) } else { hs.commit }) }
         else if r < 63 { Op::SetCommit(if wild { any(rng) } else { hs.commit.max(first.saturating_sub(1)).min(last) }) }
@@ -598,8 +598,8 @@ fn random_case(rng: &mut Rng, len: usize, sh: &mut Shard) {
         else if r < 73 { if wild && rng.chance(1, 4) { Op::InitConf(vec![7], vec![]) } else { Op::QHard } }
         else if r < 85 {
             let (lo, hi) = if wild && rng.chance(1, 3) { (any(rng), any(rng)) }
-                else if last >= first { let lo = first + rng.below(last - first + 1); (lo, lo + rng.below(last + 2 - lo) + if rng.chance(1, 8) { 0 } else { 0 }) }
-                else { (first, first + rng.below(2)) };
+                else if last >= first { let lo = first.saturating_add(rng.below((last - first).saturating_add(1))); (lo, lo.saturating_add(rng.below(last.saturating_add(2) - lo))) }
+                else { (first, first.saturating_add(rng.below(2))) };
             // keep the empty-vector panic rare in non-wild cases
             let (lo, hi) = if last < first && !wild && !rng.chance(1, 20) { (first.saturating_sub(1), first) } else { (lo, hi) };
             let mx = match rng.below(6) {
@@ -615,7 +615,7 @@ fn random_case(rng: &mut Rng, len: usize, sh: &mut Shard) {
                 }
             };
             Op::QEntries(lo, hi, mx, rng.chance(1, 4))
-        } else if r < 92 { Op::QTerm(if rng.chance(1, 2) { any(rng) } else { first.saturating_sub(1) + rng.below(last.saturating_sub(first).saturating_add(3)) }) }
+        } else if r < 92 { Op::QTerm(if rng.chance(1, 2) { any(rng) } else { first.saturating_sub(1).saturating_add(rng.below(last.saturating_sub(first).saturating_add(3))) }) }
         else if r < 97 { Op::QSnap(if rng.chance(1, 2) { 0 } else { any(rng) }, rng.below(4)) }
         else if r < 98 { Op::QFirst } else if r < 99 { Op::QLast } else { Op::QInit };
         op.enc(&mut input);
@@ -697,8 +697,456 @@ fn edge_cases(sh: &mut Shard) -> u64 {
     n
 }
 
+
+// ------------------------------------------------------------------- monitor
+//
+// Independent oracle for C19 (search / adjudication only; it shares nothing
+// with the Coq model): the property's own sequence model -- a snapshot point
+// (index, term) followed by contiguous entries -- in plain Rust.  The monitor
+// re-runs recorded cases on the REAL MemStorage.  Operations outside their
+// documented preconditions are skipped (executed on neither side).  After every
+// executed mutation a query battery is compared with the oracle, and every
+// query contained in the case is compared too.
+
+#[derive(Clone, Debug, PartialEq)]
+struct OEnt { ty: u64, term: u64, index: u64, dlen: u64, dsum: u64, clen: u64 }
+
+/// Self-test of the monitor (`--inject k`): 1 = the oracle mis-sizes entries whose data is >= 128 bytes,
+/// 2 = the oracle forgets to truncate on an overwriting append.  Never set in checks.
+static INJECT: std::sync::atomic::AtomicU64 = std::sync::atomic::AtomicU64::new(0);
+fn inject() -> u64 { INJECT.load(std::sync::atomic::Ordering::Relaxed) }
+
+fn varint_len(v: u64) -> u64 { let mut n = 1; let mut x = v >> 7; while x > 0 { n += 1; x >>= 7; } n }
+
+impl OEnt {
+    /// protobuf size of the entry (proto3: default-valued fields are not written)
+    fn size(&self) -> u64 {
+        let vf = |v: u64| if v == 0 { 0 } else { 1 + varint_len(v) };
+        let bf = |l: u64| if l == 0 { 0 } else { 1 + varint_len(l) + l };
+        vf(self.ty) + vf(self.term) + vf(self.index) + bf(self.dlen) + bf(self.clen)
+            - if inject() == 1 && self.dlen >= 128 { 1 } else { 0 }
+    }
+    fn of_real(e: &Entry) -> OEnt {
+        OEnt { ty: e.get_entry_type() as i32 as u64, term: e.term, index: e.index, dlen: e.data.len() as u64,
+               dsum: e.data.iter().map(|b| *b as u64).sum(), clen: e.context.len() as u64 }
+    }
+    fn of_ent(e: &Ent) -> OEnt {
+        OEnt { ty: e.ty.min(2), term: e.term, index: e.index, dlen: e.dlen, dsum: (e.fill & 255) * e.dlen, clen: e.clen }
+    }
+}
+
+/// Indexes at or above this are outside every documented use (index + 1 must fit a u64).
+const SANE: u64 = 1 << 62;
+
+struct Oracle {
+    si: u64, st: u64,          // snapshot point
+    first: u64,                // index of ents[0] (= si + 1 until a compaction moves it up)
+    ents: Vec<OEnt>,
+    hs: (u64, u64, u64),       // term, vote, commit
+    cs: Cs,
+    trig_snap: bool, trig_log: bool, ctx: Option<bool>,
+    /// terms of indexes that were once held (compacted away since): to tell "documented error" from "wrong data"
+    known: std::collections::HashMap<u64, u64>,
+}
+
+struct Failure { kind: &'static str, msg: String }
+fn fail<T>(kind: &'static str, msg: String) -> Result<T, Failure> { Err(Failure { kind, msg }) }
+const KNOWN_EMPTY: &str = "empty-range-on-empty-store";
+
+impl Oracle {
+    fn new(i: &Init) -> Oracle {
+        let cs = match i { Init::New => Cs { v: vec![], l: vec![], vo: vec![], ln: vec![], al: false },
+                           Init::WithConf(v, l) => Cs { v: v.clone(), l: l.clone(), vo: vec![], ln: vec![], al: false } };
+        Oracle { si: 0, st: 0, first: 1, ents: vec![], hs: (0, 0, 0), cs, trig_snap: false, trig_log: false, ctx: None,
+                 known: Default::default() }
+    }
+    fn last(&self) -> u64 { self.first + self.ents.len() as u64 - 1 }
+    fn holds(&self, i: u64) -> bool { !self.ents.is_empty() && i >= self.first && i <= self.last() }
+    fn term_at(&self, i: u64) -> Option<u64> {
+        if i == self.si { Some(self.st) } else if self.holds(i) { Some(self.ents[(i - self.first) as usize].term) } else { None }
+    }
+    fn commit_valid(&self) -> bool { self.hs.2 == self.si || self.holds(self.hs.2) }
+    fn default_cs(&self) -> bool { self.cs.v.is_empty() && self.cs.l.is_empty() && self.cs.vo.is_empty() && self.cs.ln.is_empty() && !self.cs.al }
+
+    /// Is the mutation within its documented precondition?  (queries are judged in check_query)
+    fn permitted(&self, op: &Op) -> bool {
+        match op {
+            Op::SetHs(..) | Op::SetCommit(_) | Op::SetCs(_) | Op::TrigSnap | Op::TrigLog(_) | Op::TakeCtx => true,
+            // "Panics if there is no such entry in raft logs"
+            Op::CommitTo(i) | Op::CommitToConf(i, _) => self.holds(*i),
+            Op::ApplySnap(i, _, _) => *i < SANE,
+            // "not attempt to compact an index greater than RaftLog.applied" (<= last index)
+            Op::Compact(i) => *i <= self.first || *i <= self.last(),
+            // "Panics if ents contains compacted entries, or there's a gap"; ents contiguous
+            Op::Append(es) => es.is_empty() || (
+                es[0].index >= self.first && es[0].index <= self.last() + 1 && es[0].index < SANE
+                && es.iter().enumerate().all(|(k, e)| e.index == es[0].index + k as u64)),
+            // assert!(!initialized())
+            Op::InitConf(..) => self.default_cs(),
+            _ => true,
+        }
+    }
+
+    /// Effect of a permitted mutation; returns the expected storage error code (0 = Ok).
+    fn step(&mut self, op: &Op) -> u64 {
+        match op {
+            Op::SetHs(t, v, c) => self.hs = (*t, *v, *c),
+            Op::SetCommit(c) => self.hs.2 = *c,
+            Op::CommitTo(i) => { self.hs.0 = self.term_at(*i).unwrap(); self.hs.2 = *i }
+            Op::CommitToConf(i, c) => {
+                self.hs.0 = self.term_at(*i).unwrap(); self.hs.2 = *i;
+                if let Some(c) = c { self.cs = c.clone(); }
+            }
+            Op::SetCs(c) => self.cs = c.clone(),
+            Op::ApplySnap(i, t, c) => {
+                if *i < self.first { return 3; } // SnapshotOutOfDate, nothing changes
+                self.si = *i; self.st = *t; self.first = *i + 1; self.ents.clear();
+                self.hs.0 = self.hs.0.max(*t); self.hs.2 = *i; self.cs = c.clone();
+                self.known.clear();
+            }
+            Op::Compact(i) => {
+                if *i > self.first {
+                    let k = (*i - self.first) as usize;
+                    for e in self.ents.drain(..k) { self.known.insert(e.index, e.term); }
+                    self.first = *i;
+                }
+            }
+            Op::Append(es) => {
+                if !es.is_empty() {
+                    let k = (es[0].index - self.first) as usize;
+                    if inject() != 2 { self.ents.truncate(k); }
+                    self.ents.extend(es.iter().map(OEnt::of_ent));
+                }
+            }
+            Op::TrigSnap => self.trig_snap = true,
+            Op::TrigLog(b) => self.trig_log = *b,
+            Op::TakeCtx => {}
+            Op::InitConf(v, l) => self.cs = Cs { v: v.clone(), l: l.clone(), vo: vec![], ln: vec![], al: false },
+            _ => {}
+        }
+        0
+    }
+}
+
+fn cs_of_real(c: &ConfState) -> Cs {
+    Cs { v: c.voters.clone(), l: c.learners.clone(), vo: c.voters_outgoing.clone(), ln: c.learners_next.clone(), al: c.auto_leave }
+}
+
+/// Compares one query of the real store with the oracle.  Ok(false) = outside the
+/// documented precondition, not executed.
+fn check_query(s: &MemStorage, o: &mut Oracle, q: &Op) -> Result<bool, Failure> {
+    match q {
+        Op::QFirst => {
+            match catch(|| s.first_index()) {
+                Ok(Ok(f)) if f == o.first => {}
+                Ok(r) => return fail("first-index", format!("first_index() = {:?}, sequence model says {}", r, o.first)),
+                Err(m) => return fail("unexpected-panic", format!("first_index(): {}", m)),
+            }
+        }
+        Op::QLast => {
+            match catch(|| s.last_index()) {
+                Ok(Ok(l)) if l == o.last() => {}
+                Ok(r) => return fail("last-index", format!("last_index() = {:?}, sequence model says {}", r, o.last())),
+                Err(m) => return fail("unexpected-panic", format!("last_index(): {}", m)),
+            }
+        }
+        Op::QHard => {
+            let h = s.rl().hard_state().clone();
+            if (h.term, h.vote, h.commit) != o.hs {
+                return fail("hard-state", format!("hard_state() = ({}, {}, {}), expected {:?}", h.term, h.vote, h.commit, o.hs));
+            }
+        }
+        Op::QInit => {
+            let st = s.initial_state().unwrap();
+            let h = &st.hard_state;
+            if (h.term, h.vote, h.commit) != o.hs || cs_of_real(&st.conf_state) != o.cs {
+                return fail("initial-state", format!("initial_state() = {:?}, expected hard state {:?} conf {:?}", st, o.hs, o.cs));
+            }
+        }
+        Op::QTerm(i) => {
+            let r = match catch(|| s.term(*i)) { Ok(r) => r, Err(m) => return fail("unexpected-panic", format!("term({}): {}", i, m)) };
+            let code = r.as_ref().err().map(err_code);
+            let good = if *i == o.si {
+                // the snapshot point keeps its term; once compaction has moved past it Compacted is also a documented answer
+                r.as_ref().ok() == Some(&o.st) || (o.si + 1 < o.first && code == Some(1))
+            } else if *i < o.first {
+                code == Some(1) || (r.is_ok() && o.known.get(i) == r.as_ref().ok())
+            } else if *i > o.last() {
+                code == Some(2)
+            } else {
+                r.as_ref().ok() == o.term_at(*i).as_ref()
+            };
+            if !good {
+                return fail("term", format!("term({}) = {:?} with snapshot point ({}, {}), first {}, last {}, model term {:?}",
+                                            i, r, o.si, o.st, o.first, o.last(), o.term_at(*i)));
+            }
+        }
+        Op::QEntries(lo, hi, mx, can_async) => {
+            // documented: range [low, high), panics if high > last_index + 1
+            if lo > hi || *hi > o.last() + 1 { return Ok(false); }
+            let r = catch(|| s.entries(*lo, *hi, *mx, GetEntriesContext::empty(*can_async)));
+            let r = match r {
+                Ok(r) => r,
+                Err(m) => {
+                    if lo == hi && o.ents.is_empty() && *lo >= o.first && !(o.trig_log && *can_async) {
+                        return fail(KNOWN_EMPTY, format!("entries({}, {}) panics on a store holding no entries (first {}, last {}) instead of returning Ok([]): {}",
+                                                         lo, hi, o.first, o.last(), m));
+                    }
+                    return fail("unexpected-panic", format!("entries({}, {}, {:?}): {}", lo, hi, mx, m));
+                }
+            };
+            if *lo < o.first {
+                if r.as_ref().err().map(err_code) != Some(1) {
+                    return fail("entries-compacted", format!("entries({}, {}) = {:?} but first index is {}: expected Compacted", lo, hi, r, o.first));
+                }
+                return Ok(true);
+            }
+            if o.trig_log && *can_async {
+                if r.as_ref().err().map(err_code) != Some(5) {
+                    return fail("entries-log-unavailable", format!("entries({}, {}) = {:?}: expected LogTemporarilyUnavailable", lo, hi, r));
+                }
+                o.ctx = Some(*can_async);
+                return Ok(true);
+            }
+            let got: Vec<OEnt> = match r {
+                Ok(es) => es.iter().map(OEnt::of_real).collect(),
+                Err(e) => return fail("entries-error", format!("entries({}, {}, {:?}) = Err({:?}) within [first {}, last+1 {}]", lo, hi, mx, e, o.first, o.last() + 1)),
+            };
+            let range: &[OEnt] = &o.ents[(*lo - o.first) as usize..(*hi - o.first) as usize];
+            let what = format!("entries({}, {}, {:?})", lo, hi, mx);
+            if got.len() > range.len() || got[..] != range[..got.len()] {
+                return fail("entries-not-prefix", format!("{} returned {:?}, not a prefix of the held range {:?}", what, got, range));
+            }
+            if lo < hi && got.is_empty() { return fail("entries-empty", format!("{} returned nothing for a non-empty range", what)); }
+            let total: u64 = got.iter().map(|e| e.size()).sum();
+            match mx {
+                None | Some(NO_LIMIT) => {
+                    if got.len() != range.len() { return fail("entries-truncated", format!("{} returned {} of {} entries without a limit", what, got.len(), range.len())); }
+                }
+                Some(m) => {
+                    if total > *m && got.len() != 1 {
+                        return fail("entries-over-limit", format!("{} returned {} entries of total size {} > max", what, got.len(), total));
+                    }
+                    if got.len() < range.len() && total + range[got.len()].size() <= *m {
+                        return fail("entries-not-maximal", format!("{} returned {} entries (size {}), the next one (size {}) still fits", what, got.len(), total, range[got.len()].size()));
+                    }
+                }
+            }
+        }
+        Op::QSnap(req, to) => {
+            if !o.trig_snap && !o.commit_valid() { return Ok(false); } // commit designates nothing the store holds
+            if *req >= SANE { return Ok(false); }
+            let r = match catch(|| s.snapshot(*req, *to)) { Ok(r) => r, Err(m) => return fail("unexpected-panic", format!("snapshot({}, {}) with commit {}: {}", req, to, o.hs.2, m)) };
+            if o.trig_snap {
+                o.trig_snap = false;
+                if r.as_ref().err().map(err_code) != Some(4) {
+                    return fail("snapshot-unavailable", format!("snapshot({}) = {:?} after trigger_snap_unavailable: expected SnapshotTemporarilyUnavailable", req, r));
+                }
+                return Ok(true);
+            }
+            let sn = match r { Ok(sn) => sn, Err(e) => return fail("snapshot-error", format!("snapshot({}) = Err({:?})", req, e)) };
+            let m = sn.get_metadata();
+            let commit = o.hs.2;
+            if m.index < *req { return fail("snapshot-below-request", format!("snapshot({}) has index {}", req, m.index)); }
+            if *req <= commit && m.index != commit { return fail("snapshot-index", format!("snapshot({}) has index {} but commit is {}", req, m.index, commit)); }
+            if Some(m.term) != o.term_at(commit) { return fail("snapshot-term", format!("snapshot({}) has term {} but the term at commit {} is {:?}", req, m.term, commit, o.term_at(commit))); }
+            if cs_of_real(m.get_conf_state()) != o.cs { return fail("snapshot-conf", format!("snapshot({}) carries {:?}, stored conf state is {:?}", req, m.get_conf_state(), o.cs)); }
+        }
+        Op::TakeCtx => {
+            let c = s.wl().take_get_entries_context().map(|c| c.can_async());
+            if c != o.ctx { return fail("entries-context", format!("take_get_entries_context() = {:?}, expected {:?}", c, o.ctx)); }
+            o.ctx = None;
+        }
+        _ => {}
+    }
+    Ok(true)
+}
+
+/// Query battery after a mutation.  It never issues the empty-range read on a
+/// store that holds no entries (known finding; only reported when the case itself contains it).
+fn battery(s: &MemStorage, o: &mut Oracle) -> Result<(), Failure> {
+    for q in [Op::QFirst, Op::QLast, Op::QHard, Op::QInit] { check_query(s, o, &q)?; }
+    let (first, last) = (o.first, o.last());
+    for i in first.saturating_sub(3)..=last + 2 { check_query(s, o, &Op::QTerm(i))?; }
+    check_query(s, o, &Op::QTerm(o.si))?;
+    check_query(s, o, &Op::QEntries(first - 1, first - 1, None, false))?;
+    check_query(s, o, &Op::QEntries(first - 1, last + 1, Some(0), false))?;
+    if !o.ents.is_empty() {
+        let mut w: Vec<u64> = (first..=(first + 3).min(last + 1)).chain((last.saturating_sub(2)).max(first)..=last + 1).collect();
+        w.sort(); w.dedup();
+        for &lo in &w { for &hi in &w {
+            if lo > hi { continue; }
+            let range = &o.ents[(lo - first) as usize..(hi - first) as usize];
+            let mut maxes = vec![None, Some(0)];
+            if range.len() >= 2 {
+                let s2 = range[0].size() + range[1].size();
+                let all: u64 = range.iter().map(|e| e.size()).sum();
+                maxes.extend_from_slice(&[Some(s2 - 1), Some(s2), Some(all - 1), Some(NO_LIMIT)]);
+            }
+            for mx in maxes { check_query(s, o, &Op::QEntries(lo, hi, mx, false))?; }
+        } }
+    }
+    if !o.trig_snap && o.commit_valid() {
+        for req in [0, o.hs.2, o.hs.2 + 2] { check_query(s, o, &Op::QSnap(req, 1))?; }
+    }
+    Ok(())
+}
+
+fn hash_prefix(init: &Init, ops: &[Op]) -> u64 {
+    let mut v = vec![]; enc_init(init, &mut v); for o in ops { o.enc(&mut v); }
+    let mut h: u64 = 0xcbf29ce484222325;
+    for x in v { for b in x.to_le_bytes() { h ^= b as u64; h = h.wrapping_mul(0x100000001b3); } }
+    h
+}
+
+/// Runs one case against the oracle; Some(failure) when the property fails on the implementation.
+/// `seen` (optional) remembers mutation prefixes whose battery has already been run.
+fn monitor_case(init: &Init, ops: &[Op], mut seen: Option<&mut std::collections::HashSet<u64>>) -> Option<Failure> {
+    let s = mk_store(init);
+    let mut o = Oracle::new(init);
+    for (k, op) in ops.iter().enumerate() {
+        let tag = |f: Failure| Failure { kind: f.kind, msg: format!("op {} {:?}: {}", k, op, f.msg) };
+        if matches!(op, Op::Dump) { continue; }
+        if !op.is_mutation() {
+            if let Err(f) = check_query(&s, &mut o, op) { return Some(tag(f)); }
+            continue;
+        }
+        if !o.permitted(op) { continue; }
+        let mut sink = vec![];
+        let mut d = Driver { s: s.clone(), cands: vec![] };
+        let ok = d.apply(op, &mut sink);
+        let expect = o.step(op);
+        if !ok { return Some(tag(Failure { kind: "unexpected-panic", msg: format!("a call within its documented precondition panicked (site {})", sink.last().cloned().unwrap_or(0)) })); }
+        let got = if sink[0] == 0 { 0 } else { sink[1] };
+        if got != expect {
+            return Some(tag(Failure { kind: "mutation-result", msg: format!("returned error code {} but {} was expected (0 = Ok, 3 = SnapshotOutOfDate)", got, expect) }));
+        }
+        let fresh = match seen.as_mut() { Some(h) => h.insert(hash_prefix(init, &ops[..=k])), None => true };
+        if fresh { if let Err(f) = battery(&s, &mut o) { return Some(tag(f)); } }
+    }
+    None
+}
+
+fn decode_case(line: &str) -> Option<(Init, Vec<Op>)> {
+    let t: Vec<&str> = line.split_whitespace().collect();
+    if t.len() < 2 || t[0] != COMP { return None; }
+    let n: Vec<u64> = t[1..].iter().map(|x| x.parse().ok()).collect::<Option<Vec<u64>>>()?;
+    let mut i = 0usize;
+    fn num(n: &[u64], i: &mut usize) -> Option<u64> { let v = *n.get(*i)?; *i += 1; Some(v) }
+    fn list(n: &[u64], i: &mut usize) -> Option<Vec<u64>> {
+        let k = num(n, i)? as usize; if *i + k > n.len() { return None; }
+        let v = n[*i..*i + k].to_vec(); *i += k; Some(v)
+    }
+    fn cs(n: &[u64], i: &mut usize) -> Option<Cs> {
+        Some(Cs { v: list(n, i)?, l: list(n, i)?, vo: list(n, i)?, ln: list(n, i)?, al: num(n, i)? != 0 })
+    }
+    let init = match num(&n, &mut i)? { 0 => Init::New, 1 => Init::WithConf(list(&n, &mut i)?, list(&n, &mut i)?), _ => return None };
+    let mut ops = vec![];
+    while i < n.len() {
+        let code = num(&n, &mut i)?;
+        let op = match code {
+            0 => Op::SetHs(num(&n, &mut i)?, num(&n, &mut i)?, num(&n, &mut i)?),
+            1 => Op::SetCommit(num(&n, &mut i)?),
+            2 => Op::CommitTo(num(&n, &mut i)?),
+            3 => Op::SetCs(cs(&n, &mut i)?),
+            4 => Op::ApplySnap(num(&n, &mut i)?, num(&n, &mut i)?, cs(&n, &mut i)?),
+            5 => Op::Compact(num(&n, &mut i)?),
+            6 => {
+                let k = num(&n, &mut i)?;
+                let mut es = vec![];
+                for _ in 0..k {
+                    es.push(Ent { ty: num(&n, &mut i)?, term: num(&n, &mut i)?, index: num(&n, &mut i)?,
+                                  dlen: num(&n, &mut i)?, fill: num(&n, &mut i)?, clen: num(&n, &mut i)? });
+                }
+                Op::Append(es)
+            }
+            7 => { let ix = num(&n, &mut i)?; if num(&n, &mut i)? == 0 { Op::CommitToConf(ix, None) } else { Op::CommitToConf(ix, Some(cs(&n, &mut i)?)) } }
+            8 => Op::TrigSnap,
+            9 => Op::TrigLog(num(&n, &mut i)? != 0),
+            10 => Op::TakeCtx,
+            11 => Op::InitConf(list(&n, &mut i)?, list(&n, &mut i)?),
+            20 => Op::QInit,
+            21 => {
+                let (lo, hi) = (num(&n, &mut i)?, num(&n, &mut i)?);
+                let mx = if num(&n, &mut i)? == 0 { None } else { Some(num(&n, &mut i)?) };
+                Op::QEntries(lo, hi, mx, num(&n, &mut i)? != 0)
+            }
+            22 => Op::QTerm(num(&n, &mut i)?),
+            23 => Op::QFirst,
+            24 => Op::QLast,
+            25 => Op::QSnap(num(&n, &mut i)?, num(&n, &mut i)?),
+            26 => Op::QHard,
+            30 => Op::Dump,
+            _ => return None,
+        };
+        ops.push(op);
+    }
+    Some((init, ops))
+}
+
+fn case_line(init: &Init, ops: &[Op]) -> String {
+    let mut v = vec![]; enc_init(init, &mut v); for o in ops { o.enc(&mut v); }
+    format!("{} {}", COMP, v.iter().map(|x| x.to_string()).collect::<Vec<_>>().join(" "))
+}
+
+/// Shortest failing prefix, then greedy removal of single operations, keeping the failure kind.
+fn shrink(init: &Init, ops: &[Op], kind: &str) -> Vec<Op> {
+    let same = |o: &[Op]| monitor_case(init, o, None).map_or(false, |f| f.kind == kind);
+    let mut best = ops.to_vec();
+    for k in 1..=ops.len() { if same(&ops[..k]) { best = ops[..k].to_vec(); break; } }
+    loop {
+        let mut improved = false;
+        let mut k = 0;
+        while k < best.len() {
+            let mut x = best.clone(); x.remove(k);
+            if same(&x) { best = x; improved = true; } else { k += 1; }
+        }
+        if !improved { return best; }
+    }
+}
+
+fn monitor(args: &[String]) {
+    let files = arg(args, "--cases", "");
+    INJECT.store(arg(args, "--inject", "0").parse().unwrap_or(0), std::sync::atomic::Ordering::Relaxed);
+    let mut n = 0u64;
+    let mut known: Option<(Init, Vec<Op>)> = None;
+    let mut n_known = 0u64;
+    let mut seen = std::collections::HashSet::new();
+    let report = |init: &Init, ops: &[Op], kind: &str| {
+        let small = shrink(init, ops, kind);
+        let f = monitor_case(init, &small, None).unwrap();
+        println!("FAIL {}", case_line(init, &small));
+        println!("REASON {}: {}", f.kind, f.msg);
+    };
+    for f in files.split(',').filter(|x| !x.is_empty()) {
+        let text = std::fs::read_to_string(f).unwrap();
+        for line in text.lines() {
+            if let Some((init, ops)) = decode_case(line) {
+                n += 1;
+                if let Some(fl) = monitor_case(&init, &ops, Some(&mut seen)) {
+                    if fl.kind == KNOWN_EMPTY {
+                        n_known += 1;
+                        if known.is_none() { known = Some((init, ops)); }
+                    } else {
+                        println!("STATS cases={} known_empty_range_cases={}", n, n_known);
+                        report(&init, &ops, fl.kind);
+                        return;
+                    }
+                }
+            }
+        }
+    }
+    println!("STATS cases={} known_empty_range_cases={}", n, n_known);
+    match known {
+        // the only failures are the known empty-range finding
+        Some((init, ops)) => report(&init, &ops, KNOWN_EMPTY),
+        None => println!("MONITOR-OK cases={}", n),
+    }
+}
+
 pub fn main(args: &[String]) {
     let mode = arg(args, "--mode", "exhaustive");
+    if mode == "monitor" { return monitor(args); }
     let dir = arg(args, "--out", "/verif/build/run");
     let nsh: usize = arg(args, "--shards", "16").parse().unwrap();
     let seed: u64 = arg(args, "--seed", "1").parse().unwrap();
@@ -716,10 +1164,19 @@ pub fn main(args: &[String]) {
     } else {
         let count: usize = arg(args, "--count", "2000").parse().unwrap();
         let len: usize = arg(args, "--len", "60").parse().unwrap();
-        let mut rng = Rng::new(seed);
+        // util::Rng::new(s + 1) is the stream of Rng::new(s) shifted by one draw, so consecutive seeds
+        // would regenerate almost the same cases: give every case its own well-mixed state instead.
+        let mix = |x: u64| { let mut z = x.wrapping_add(0x9E3779B97F4A7C15);
+            z = (z ^ (z >> 30)).wrapping_mul(0xBF58476D1CE4E5B9); z = (z ^ (z >> 27)).wrapping_mul(0x94D049BB133111EB); z ^ (z >> 31) };
         let mut shards: Vec<Shard> = (0..nsh).map(|k| Shard::create(&dir, "memstorage-rnd", k)).collect();
         edge_cases(&mut shards[0]);
-        for i in 0..count { random_case(&mut rng, len, &mut shards[i % nsh]); }
+        for i in 0..count {
+            let mut rng = Rng(mix(mix(seed) ^ (i as u64).wrapping_mul(0xD6E8FEB86659FD93)));
+            if let Err(m) = catch(|| random_case(&mut rng, len, &mut shards[i % nsh])) {
+                eprintln!("generator bug in random case {} (seed {}): {}", i, seed, m);
+                std::process::exit(3);
+            }
+        }
         for s in shards { total += s.finish(); }
     }
     println!("cases={}", total);
